@@ -55,6 +55,8 @@ fn main() {
     let code = match args[0].as_str() {
         "run" => cmd_run(&args[1..]),
         "replay" => cmd_replay(&args[1..]),
+        // internal: reference execution of a C06 history in a fresh process (stdin -> stdout)
+        "c06-ref" => c06::ref_child_main(),
         _ => usage(),
     };
     std::process::exit(code);
